@@ -603,7 +603,8 @@ def ltj_():
 _key('loadtypes', _LT_PRELUDE, {}, [
     Probe('load_types.class_from_typename', 'lt_()', lambda m: dict(m['loadtypes'])),
     Probe('load_types.from_json', 'ltj_()',
-          lambda m: {None: None, 'a': True, 'b': False}[m['loadtypes'].get('LT1_')], True),
+          lambda m: SKIP if (m['loadtypes'].get('LT1_') and (_blocked(m) or not m['typecheck']))
+          else {None: None, 'a': True, 'b': False}[m['loadtypes'].get('LT1_')], True),
 ], process_wide=True)
 _mgr('load_types_for_deserialization', 'loadtypes', [
     Arg('pg.JSONConvertible.load_types_for_deserialization(LT1a_)', dict(LT1_='a')),
@@ -1348,3 +1349,516 @@ def drv_random_trees(tier, seed):
       progs.append(('two-keys', p))
   _run_batch(rec, progs)
   return _finish(rec)
+
+
+# ===========================================================================
+# Threads: deterministic schedules of well-nested per-thread programs
+# ===========================================================================
+
+class _Worker:
+  """A thread executing enter/exit/probe commands one at a time."""
+
+  def __init__(self, ns):
+    self.ns = ns
+    self.q = queue.Queue()
+    self.out = queue.Queue()
+    self.thread = threading.Thread(target=self._loop, daemon=True)
+    self.thread.start()
+
+  def call(self, *cmd):
+    self.q.put(cmd)
+    kind, val = self.out.get(timeout=60)
+    if kind == 'exc':
+      raise val
+    return val
+
+  def stop(self):
+    self.q.put(('stop',))
+    self.thread.join(timeout=10)
+
+  def _loop(self):
+    ns = self.ns
+    stack = []
+    while True:
+      cmd = self.q.get()
+      try:
+        if cmd[0] == 'stop':
+          return
+        if cmd[0] == 'enter':
+          arg = MGRS[cmd[1]].args[cmd[2]]
+          cm = eval(arg.code, ns)  # pylint: disable=eval-used
+          cm.__enter__()
+          stack.append(cm)
+          self.out.put(('ok', None))
+        elif cmd[0] == 'exit':
+          cm = stack.pop()
+          if cmd[1] == 'N':
+            cm.__exit__(None, None, None)
+            self.out.put(('ok', None))
+          else:
+            exc = ns['E_' if cmd[1] == 'E' else 'BE_']()
+            swallowed = None
+            try:
+              raise exc
+            except BaseException as e:  # pylint: disable=broad-except
+              try:
+                swallowed = cm.__exit__(type(e), e, e.__traceback__)
+              except BaseException as e2:  # pylint: disable=broad-except
+                if e2 is not e:
+                  raise
+            self.out.put(('ok', bool(swallowed)))
+        elif cmd[0] == 'probe':
+          _, model, involved, skip = cmd
+          ctx = Ctx(ns, involved)
+          ctx.probe((), 0, model, skip_keys=skip)
+          self.out.put(('ok', (ctx.checks, ctx.failures)))
+      except BaseException as e:  # pylint: disable=broad-except
+        self.out.put(('exc', e))
+
+
+def linearize(prog):
+  """Program without T/C nodes -> [('enter', mgr, ai) | ('exit', kind)].
+
+  An ('R', k) node ends its block: every enclosing scope is left with that
+  exception (nothing catches it)."""
+  ev = []
+
+  def walk(children, depth):
+    for n in children:
+      if n[0] == 'W':
+        if MGRS[n[1]].args[n[2]].enter_raises:
+          continue
+        ev.append(('enter', n[1], n[2]))
+        r = walk(n[3], depth + 1)
+        ev.append(('exit', r or 'N'))
+        if r:
+          return r
+      elif n[0] == 'R':
+        return n[1]
+    return None
+  walk(prog, 0)
+  return ev
+
+
+def run_schedule(progs, order):
+  """progs: one program per thread; order: thread index per event.
+
+  Returns (checks, [(case_id, message)])."""
+  ns = namespace()
+  events = [linearize(p) for p in progs]
+  assert sorted(order) == sorted(t for t, e in enumerate(events) for _ in e), (order, events)
+  pw_keys = {}      # process-wide key -> owning thread
+  for t, p in enumerate(progs):
+    for name in _mgr_names(p):
+      if MGRS[name].process_wide or KEYS[MGRS[name].key].process_wide:
+        pw_keys[MGRS[name].key] = t
+  involved = set()
+  for p in progs:
+    involved |= involved_keys(p)
+  workers = [_Worker(ns) for _ in progs]
+  models = [[dict(INIT_MODEL)] for _ in progs]
+  pos = [0] * len(progs)
+  fails, checks = [], 0
+
+  def probe_all(actor, what):
+    nonlocal checks
+    for t, w in enumerate(workers):
+      skip = tuple(k for k, owner in pw_keys.items() if owner != t)
+      c, fs = w.call('probe', models[t][-1], involved, skip)
+      checks += c
+      for f in fs:
+        tag = 'own-event' if t == actor else 'leak-from-other-thread'
+        fails.append((f'{f.case_id.split("/")[0]}/threads/{tag}',
+                      f'thread {t} after thread {actor} {what}: {f.message}'))
+    fresh = _Worker(ns)
+    try:
+      c, fs = fresh.call('probe', dict(INIT_MODEL), involved, tuple(pw_keys))
+    finally:
+      fresh.stop()
+    checks += c
+    for f in fs:
+      fails.append((f'{f.case_id.split("/")[0]}/threads/leak-into-new-thread',
+                    f'new thread after thread {actor} {what}: {f.message}'))
+
+  try:
+    probe_all(-1, 'start')
+    for t in order:
+      e = events[t][pos[t]]
+      pos[t] += 1
+      try:
+        if e[0] == 'enter':
+          mgr = MGRS[e[1]]
+          arg = mgr.args[e[2]]
+          workers[t].call(*e)
+          top = dict(models[t][-1])
+          top[mgr.key] = mgr.enter(top[mgr.key], arg.marg)
+          models[t].append(top)
+          what = f'entered {arg.src}'
+        else:
+          swallowed = workers[t].call(*e)
+          models[t].pop()
+          what = f'left its innermost scope ({e[1]})'
+          if swallowed:
+            fails.append(('exit/exception-swallowed', f'thread {t}: __exit__ returned true'))
+      except BaseException as x:  # pylint: disable=broad-except
+        fails.append((f'schedule/unexpected-{type(x).__name__}',
+                      f'thread {t} {e}: {type(x).__name__}: {x}'))
+        break
+      probe_all(t, what)
+  finally:
+    for w in workers:
+      w.stop()
+  return checks, fails
+
+
+def replay_schedule(progs, order, case_id):
+  _, fails = run_schedule(progs, order)
+  _reset_process_wide()
+  for cid, msg in fails:
+    if cid == case_id:
+      raise AssertionError(f'{cid}: {msg}\nthreads={progs!r}\norder={order!r}')
+
+
+def _interleavings(counts):
+  """All merges of sequences with the given lengths (as thread-index lists)."""
+  if not any(counts):
+    yield []
+    return
+  for t, c in enumerate(counts):
+    if c:
+      rest = list(counts)
+      rest[t] -= 1
+      for tail in _interleavings(rest):
+        yield [t] + tail
+
+
+def _schedule_ok(progs):
+  """At most one thread may touch a process-wide key; nobody else uses that key."""
+  owners = {}
+  for t, p in enumerate(progs):
+    if not valid_program(p):
+      return False
+    for name in _mgr_names(p):
+      k = MGRS[name].key
+      owners.setdefault(k, set()).add((t, MGRS[name].process_wide or KEYS[k].process_wide))
+  for k, us in owners.items():
+    if any(pw for _, pw in us) and len({t for t, _ in us}) > 1:
+      return False
+  names = set().union(*[_mgr_names(p) for p in progs])
+  if 'dynamic_evaluate' in names and 'dynamic_evaluate_global' in names:
+    return False
+  return True
+
+
+def drv_threads(tier, seed):
+  quick = tier == 'quick'
+  rec = Recorder(
+      'C17', 'thread isolation of scoped settings under deterministic interleavings',
+      scope=('2 threads, one scope each over the same state key: all arg pairs (<=4x4 quick, all '
+             'thorough) x all 6 interleavings x exit kinds; 2 threads over different keys '
+             '(seeded); seeded random schedules of 2..' + ('3' if quick else '4') +
+             ' threads running well-nested programs of depth<=2 with exceptional exits ('
+             + ('120' if quick else '2500') + ' schedules); after every event every thread and '
+             'a newly started thread probe all getters and the behavioural probes of all '
+             'involved state; process-wide managers exempt in other threads'))
+  r = rng(seed, 'c17-threads')
+  scheds = []
+  for k in KEY_ORDER:
+    ch = _choices({k})
+    ch = [c for c in ch if not MGRS[c[0]].args[c[1]].enter_raises]
+    if quick and len(ch) > 4:
+      ch = r.sample(ch, 4)
+    n = 0
+    for a in ch:
+      for b in ch:
+        for order in _interleavings([2, 2]):
+          n += 1
+          if quick and n % 3 != seed % 3:
+            continue
+          kinds = ('N', 'E', 'B')
+          ka, kb = kinds[n % 3], kinds[(n // 3) % 3]
+          progs = [[('W',) + a + ([('R', ka)] if ka != 'N' else [],)],
+                   [('W',) + b + ([('R', kb)] if kb != 'N' else [],)]]
+          if _schedule_ok(progs):
+            scheds.append((f'same-key/{k}', progs, order))
+  allc = [c for c in _choices(set(KEY_ORDER)) if not MGRS[c[0]].args[c[1]].enter_raises]
+  for _ in range(150 if quick else 1500):
+    a, b = r.choice(allc), r.choice(allc)
+    progs = [[('W',) + a + ([],)], [('W',) + b + ([],)]]
+    if _schedule_ok(progs):
+      scheds.append(('two-keys', progs, r.choice(list(_interleavings([2, 2])))))
+  want = 120 if quick else 2500
+  tries = 0
+  while want and tries < 100000:
+    tries += 1
+    nt = r.choice((2, 2, 3) if quick else (2, 3, 3, 4))
+    keys = set(r.sample(KEY_ORDER, r.choice((1, 1, 2, 3))))
+    if not _choices(keys):
+      continue
+    progs = []
+    for _ in range(nt):
+      p = random_tree(r, 2, keys)
+      p = _strip(p)
+      progs.append(p)
+    if not _schedule_ok(progs) or sum(len(linearize(p)) for p in progs) > 14:
+      continue
+    counts = [len(linearize(p)) for p in progs]
+    if sum(1 for c in counts if c) < 2:
+      continue
+    order = [t for t, c in enumerate(counts) for _ in range(c)]
+    r.shuffle(order)
+    scheds.append((f'random/{nt}-threads', progs, order))
+    want -= 1
+  for tag, progs, order in scheds:
+    try:
+      checks, fails = run_schedule(progs, order)
+    except BaseException as e:  # pylint: disable=broad-except
+      checks, fails = 0, [(f'schedule/harness-{type(e).__name__}', str(e))]
+    rec.cases += max(checks - 1, 0)
+    ids = {}
+    for cid, msg in fails:
+      ids.setdefault(cid, msg)
+    wit = lambda cid: ('import bounded.c17_scopes as m\n'
+                       f'm.replay_schedule({progs!r}, {order!r}, {cid!r})\n')
+    rec.case('schedule-without-findings', (tag, progs, order), ok=not fails)
+    for cid, msg in ids.items():
+      rec.case(cid, (tag, progs, order), ok=False, message=f'{msg} [{tag}]', witness=wit(cid))
+    if fails:
+      _reset_process_wide()
+  rec.fail.pop('schedule-without-findings', None)
+  return rec.result()
+
+
+def _strip(prog):
+  """Removes T and C nodes (threads driver uses linear enter/exit events)."""
+  out = []
+  for n in prog:
+    if n[0] == 'W':
+      out.append(('W', n[1], n[2], _strip(n[3])))
+    elif n[0] == 'T':
+      out.extend(_strip(n[1]))
+    elif n[0] == 'R':
+      out.append(n)
+      break
+  return out
+
+
+# ===========================================================================
+# Hand-written special situations (each is its own self-contained witness)
+# ===========================================================================
+
+SPECIALS = [
+    ('detour/leaving-scope-restores-instantiation/subclass-detoured-after-its-base', '''
+import pyglove as pg
+class A:
+  def __init__(self, v=0): self.v = v
+class B(A): pass
+class C:
+  def __init__(self, v=0): self.v = v
+with pg.detour([(A, C)]):
+  assert type(A()) is C
+with pg.detour([(B, C)]):
+  assert type(B()) is C
+assert pg.detouring.current_mappings() == {}
+try:
+  ok = type(B(1)) is B and type(A(1)) is A
+except RecursionError:
+  ok = False
+assert ok, 'B() no longer constructs a B after both detour scopes were left'
+'''),
+    ('detour/leaving-scope-restores-instantiation/base-detoured-after-its-subclass', '''
+import pyglove as pg
+class A:
+  def __init__(self, v=0): self.v = v
+class B(A): pass
+class C:
+  def __init__(self, v=0): self.v = v
+with pg.detour([(B, C)]):
+  assert type(B()) is C and type(A()) is A
+  with pg.detour([(A, C)]):
+    assert type(B()) is C and type(A()) is C
+  assert type(B()) is C and type(A()) is A
+assert type(B(1)) is B and type(A(1)) is A and pg.detouring.current_mappings() == {}
+'''),
+    ('detour/custom-__new__/restored-after-exception', '''
+import pyglove as pg
+class A:
+  def __new__(cls, *a, **k):
+    o = super().__new__(cls); o.made_by = 'A.__new__'; return o
+  def __init__(self, v=0): self.v = v
+class C:
+  def __init__(self, v=0): self.v = v
+try:
+  with pg.detour([(A, C)]):
+    assert type(A(2)) is C
+    with pg.detour([(C, A)]):
+      assert type(A(2)) is C and type(C(2)) is C
+      raise KeyError()
+except KeyError: pass
+a = A(3)
+assert type(a) is A and a.made_by == 'A.__new__' and a.v == 3
+assert pg.detouring.current_mappings() == {}
+'''),
+    ('dynamic_evaluate/process-wide-after-per-thread-scope-on-same-thread', '''
+import pyglove as pg, threading
+out = []
+def run():
+  with pg.hyper.dynamic_evaluate(lambda hv: 'per-thread'):
+    assert pg.oneof([1, 2]) == 'per-thread'
+  assert isinstance(pg.oneof([1, 2]), pg.hyper.OneOf)
+  with pg.hyper.dynamic_evaluate(lambda hv: 'global', per_thread=False):
+    out.append(pg.oneof([1, 2]))
+  out.append(type(pg.oneof([1, 2])).__name__)
+t = threading.Thread(target=run); t.start(); t.join()
+assert out == ['global', 'OneOf'], out
+'''),
+    ('dynamic_evaluate/per-thread-after-process-wide-scope', '''
+import pyglove as pg, threading
+out = []
+def run():
+  with pg.hyper.dynamic_evaluate(lambda hv: 'global', per_thread=False):
+    out.append(pg.oneof([1, 2]))
+  with pg.hyper.dynamic_evaluate(lambda hv: 'per-thread'):
+    out.append(pg.oneof([1, 2]))
+  out.append(type(pg.oneof([1, 2])).__name__)
+t = threading.Thread(target=run); t.start(); t.join()
+assert out == ['global', 'per-thread', 'OneOf'], out
+'''),
+    ('dynamic_evaluate/process-wide-visible-in-other-thread-and-restored', '''
+import pyglove as pg, threading
+out = []
+def probe(): out.append(pg.oneof([1, 2]) if not isinstance(pg.oneof([1, 2]), pg.hyper.OneOf) else 'OneOf')
+def run():
+  try:
+    with pg.hyper.dynamic_evaluate(lambda hv: 'g1', per_thread=False):
+      with pg.hyper.dynamic_evaluate(lambda hv: 'g2', per_thread=False):
+        t = threading.Thread(target=probe); t.start(); t.join()
+        raise KeyError()
+  except KeyError: pass
+  t = threading.Thread(target=probe); t.start(); t.join()
+t = threading.Thread(target=run); t.start(); t.join()
+assert out == ['g2', 'OneOf'], out
+'''),
+    ('dynamic_evaluation_context/collect-apply-nesting-restores', '''
+import pyglove as pg, threading
+def run():
+  def fn(): return pg.oneof([1, 2, 3]) + pg.oneof([10, 20])
+  ctx = pg.hyper.DynamicEvaluationContext()
+  with ctx.collect(): assert fn() == 11
+  assert isinstance(pg.oneof([1]), pg.hyper.OneOf)
+  with ctx.apply([2, 1]):
+    assert fn() == 23
+    inner = pg.hyper.DynamicEvaluationContext()
+    try:
+      with inner.collect():
+        assert pg.oneof([7, 8]) == 7
+        raise KeyError()
+    except KeyError: pass
+  assert isinstance(pg.oneof([1]), pg.hyper.OneOf)
+  try:
+    with ctx.apply([0, 0]):
+      assert pg.oneof([1, 2, 3]) == 1
+      raise KeyError()
+  except KeyError: pass
+  assert isinstance(pg.oneof([1]), pg.hyper.OneOf)
+  out.append('done')
+out = []
+t = threading.Thread(target=run); t.start(); t.join()
+assert out == ['done']
+'''),
+    ('with_contextual_override/forwards-arguments-and-result', '''
+import pyglove as pg, threading
+def f(a, b=2): return (a, b, pg.contextual_value('x', None), pg.contextual_value('y', None))
+with pg.contextual_override(x=1, y=pg.utils.contextual.ContextualOverride(5, cascade=True)):
+  w = pg.with_contextual_override(f)
+out = []
+with pg.contextual_override(x=7, y=8):
+  assert w(1, b=3) == (1, 3, 1, 5)
+  t = threading.Thread(target=lambda: out.append(w(4))); t.start(); t.join()
+  assert f(0) == (0, 2, 7, 8)
+assert out == [(4, 2, 1, 5)], out
+assert w(9) == (9, 2, 1, 5) and pg.utils.all_contextual_values() == {}
+'''),
+    ('coding.permission/scope-inside-evaluated-code-cannot-widen', '''
+import pyglove as pg
+P = pg.coding.CodePermission
+with pg.coding.permission(P.CALL):
+  with pg.coding.permission(P.ALL) as p:
+    assert p == P.CALL and pg.coding.get_permission() == P.CALL
+    try:
+      pg.coding.evaluate('x = 1'); raise AssertionError('assignment ran')
+    except pg.coding.CodeError: pass
+  assert pg.coding.get_permission() == P.CALL
+assert pg.coding.get_permission() is None
+'''),
+    ('flags/scope-objects-are-lazy-until-entered', '''
+import pyglove as pg
+cms = [pg.as_sealed(True), pg.notify_on_change(False), pg.enable_type_check(False),
+       pg.allow_partial(True), pg.track_origin(True), pg.auto_call_functors(True),
+       pg.allow_writable_accessors(False), pg.contextual_override(x=1), pg.str_format(compact=True),
+       pg.coding.context(x=1), pg.coding.permission(pg.coding.CodePermission.CALL), pg.view_options(a=1)]
+assert pg.symbolic.is_under_sealed_scope() is None and pg.symbolic.is_change_notification_enabled()
+assert pg.symbolic.is_type_check_enabled() and pg.symbolic.is_under_partial_scope() is None
+assert not pg.symbolic.is_tracking_origin() and not pg.symbolic.should_call_functors_during_init()
+assert pg.symbolic.is_under_accessor_writable_scope() is None and pg.utils.all_contextual_values() == {}
+assert pg.coding.get_context() == {} and pg.coding.get_permission() is None
+'''),
+    ('timeit/status-tree-and-errors-after-nested-exception', '''
+import pyglove as pg
+try:
+  with pg.timeit('a') as a:
+    with pg.timeit('b') as b:
+      pass
+    with pg.timeit('c') as c:
+      with pg.timeit('d') as d:
+        raise KeyError('x')
+except KeyError: pass
+assert pg.utils.thread_local_get('__timing_context__', None) is None
+s = a.status()
+assert list(s) == ['a', 'a.b', 'a.c', 'a.c.d'], list(s)
+assert [s[k].has_error for k in s] == [True, False, True, True]
+assert all(s[k].has_ended for k in s) and [x.name for x in a.children] == ['b', 'c']
+with pg.timeit('e') as e: pass
+assert list(e.status()) == ['e'] and not e.has_error
+'''),
+    ('thread_local_value_scope/nested-none-and-falsy-values', '''
+import pyglove as pg
+U = pg.utils
+assert not U.thread_local_has('k17s_')
+with U.thread_local_value_scope('k17s_', 0, 'init'):
+  assert U.thread_local_get('k17s_') == 0
+  try:
+    with U.thread_local_value_scope('k17s_', None, 'init'):
+      assert U.thread_local_get('k17s_') is None
+      with U.thread_local_value_scope('k17s_', False, 'init'):
+        assert U.thread_local_get('k17s_') is False
+        raise KeyError()
+  except KeyError: pass
+  assert U.thread_local_get('k17s_') == 0 and U.thread_local_has('k17s_')
+assert not U.thread_local_has('k17s_')
+'''),
+]
+
+
+def drv_specials(tier, seed):
+  del tier, seed
+  rec = Recorder('C17', 'hand-written special situations',
+                 scope=f'{len(SPECIALS)} fixed scenarios (class inheritance under detour, custom '
+                       '__new__, per-thread vs process-wide dynamic evaluation in sequence, '
+                       'DynamicEvaluationContext collect/apply, wrapper argument forwarding, '
+                       'lazy scope objects, TimeIt status tree, falsy values in value scopes)')
+  for cid, src in SPECIALS:
+    def run(src=src):
+      try:
+        exec(src, {})  # pylint: disable=exec-used
+        return None
+      except BaseException as e:  # pylint: disable=broad-except
+        return f'{type(e).__name__}: {e}'[:400]
+    err = run_in_fresh_thread(run)
+    _reset_process_wide()
+    rec.case(cid, cid, ok=err is None, message=err or '', witness=src.lstrip())
+  return rec.result()
+
+
+DRIVERS = [drv_nesting_same_key, drv_nesting_cross_key, drv_random_trees, drv_threads,
+           drv_specials]
